@@ -234,6 +234,14 @@ def proof_evidence(ctx, extra_files=()):
     if qeds < stmts or bad:
         ctx.log("statements %d, Qed %d, Admitted/Abort %d" % (stmts, qeds, bad))
         return False
+    if ctx.tier == "thorough":
+        # the compiled theorem file and everything it depends on re-checked by Coq's independent checker; axioms it reports
+        rc, out = sh(["timeout", "1800", "coqchk", "-silent", "-o", "-Q", COQ, "PV", "PV.Properties." + ctx.prop], cwd=COQ, timeout=1900)
+        m = re.search(r"\* Axioms:\s*(.*?)\n\s*\n", out, re.S)
+        ctx.coverage["coqchk"] = {"exit": rc, "axioms": (m.group(1).strip() if m else "?")}
+        if rc != 0 or not m or m.group(1).strip() != "<none>":
+            ctx.log("coqchk: exit %d, axioms %s" % (rc, m.group(1).strip() if m else out[-400:]))
+            return False
     return True
 
 
